@@ -1495,8 +1495,44 @@ class History(object):
             return k
         return self.leaf(e, T)
 
+    def g_sig_family(self, e):
+        """function symbols re-requested under the SAME name with related signatures: the same
+        one, a parameter list that is a prefix / an extension of it, permuted parameters,
+        another return type.  Same object iff same (name, signature), else PysmtTypeError."""
+        rng = self.rng
+        sorts = [("I",), ("B",), ("R",), ("V", 4), U]
+        name = "h%d" % rng.randrange(3)
+        prev = self.symty(e).get(name)
+        if prev is not None and prev[0] == "F" and rng.random() < 0.85:
+            ret, ps = prev[1], list(prev[2])
+            c = rng.randrange(6)
+            if c == 0:
+                pass                                    # same signature: same object
+            elif c == 1 and len(ps) > 1:
+                ps = ps[:-1]                            # proper prefix
+            elif c == 2:
+                ps = ps + [rng.choice(sorts)]           # extension
+            elif c == 3 and len(ps) > 1:
+                ps = ps[1:] + ps[:1]                    # rotated (a permutation)
+            elif c == 4:
+                ret = rng.choice([x for x in sorts if x != ret])
+            else:
+                ps = ps[:-1] + [rng.choice(sorts)]      # last parameter changed
+            ft = ("F", ret, tuple(ps))
+        else:
+            n = rng.choice([1, 2, 2, 3])
+            ft = ("F", rng.choice(sorts), tuple(rng.choice(sorts[:3]) if rng.random() < 0.7 else rng.choice(sorts)
+                                                for _ in range(n)))
+        f = self.build(e, "Symbol", name, ft)
+        if self.usable(f) and rng.random() < 0.6:
+            ps = tuple(self.pick(e, p) for p in ft[2])
+            return self.build(e, "Function", f, ps)
+        return f
+
     def g_uf(self, e):
         rng = self.rng
+        if rng.random() < 0.4:
+            return self.g_sig_family(e)
         ft = rng.choice(FUN_TYPES)
         f = self.build(e, "Symbol", "f%d_%d" % (rng.randrange(2), self.tyidx(ft)), ft)
         if not self.usable(f):
